@@ -213,6 +213,19 @@ def confirm_failures_in_isolation(path, res, fails, canary='__vacuity_canary', c
     return confirmed, dropped, notes
 
 
+def stability_sweep(path, seeds=(1, 2, 3), canary='__vacuity_canary'):
+    """Thorough tier: re-verify a unit under different SMT seeds; a proof that only goes through for some seeds is a latent
+    source of inconclusive results or false alarms.  Informational (reported in the evidence)."""
+    out = []
+    for sd in seeds:
+        r = run_verus(path, timeout=900, extra=['--smt-option', 'smt.random_seed=%d' % sd, '--smt-option', 'sat.random_seed=%d' % sd])
+        st, fails, why = classify_verus(r, canary=canary)
+        vr = (r['json'] or {}).get('verification-results') or {}
+        out.append({'seed': sd, 'status': st, 'verified': vr.get('verified'), 'wall_s': round(r['wall_s'], 1),
+                    'failing': [f['text'].split('\n')[0] for f in fails][:5]})
+    return out
+
+
 def verus_functions(res):
     """[(function, mode, success, micros)] from the smt function breakdown."""
     out = []
